@@ -1,7 +1,7 @@
 """C17 (partial): R-IDX, R-CAP, R-EOF, R-REC, R-DIV, R-NULL, T-TBL, T-DISP over everything reachable from naken_util."""
 from nk import report
 from nk.interval import Analyzer
-from rules import strs, prog as rprog, wrap, idx, term, div, tbl, null, disp
+from rules import strs, prog as rprog, wrap, idx, term, div, tbl, null, disp, lane
 from . import common
 
 EXPLANATION = (
@@ -11,7 +11,7 @@ EXPLANATION = (
     'input), R-REC, R-DIV, R-NULL, T-TBL (table sentinels), T-DISP (every accepted command / detected file type is '
     'dispatched). R-PROG: every range loop of the range printers and the page walk of UtilContext::disasm advance on every path. '
     'WRAP-LOOP: a 32-bit address counter compared with an inclusive upper bound cannot wrap (the 56 range printers are known findings). R-STR: as in C16, over the disassemblers and file readers (about 200 of 600 copies are proven, the rest not decided). Not decided: file-supplied counts and offsets used as pointer offsets into the file image '
-    '(R-TAINT not armed), heap use.')
+    '(R-TAINT not armed), heap use. R-WRAP: the page-membership tests of the image (which every loader writes through) are computed in 64 bits, so a store at 0xffff0000 and above finds its page instead of appending pages until memory runs out.')
 
 
 def run(tier, t0):
@@ -28,7 +28,8 @@ def run(tier, t0):
                tbl.ttbl(prog), disp.disp(prog), idx.ptr_into_array(prog, scope, an),
                rprog.run(prog, cg),
                strs.strs(prog, cg, scope, 100), strs.str_loops(prog, scope, an, 20),
-               wrap.wrap_loops(prog, lambda f: f.file.startswith(('disasm/', 'core/UtilContext', 'main/naken_util', 'fileio/')), an, 40, strict_fns=common.range_printers())]
+               wrap.wrap_loops(prog, lambda f: f.file.startswith(('disasm/', 'core/UtilContext', 'main/naken_util', 'fileio/')), an, 40, strict_fns=common.range_printers()),
+               lane.wrap_pages(prog, 2)]
     return report.finish('C17', tier, results, EXPLANATION,
                          ['the invariants listed for not-decided subscripts were read from the code and replayed under ASan '
                           'during triage'], common.TRUSTED, t0)
